@@ -267,6 +267,20 @@ def run(chk):
     if not sub6.violations:
         chk.discharge(key6)
     C06.check_constructor(report.Check("C06", chk.tier), load_config("K1"), S.Sim(load_config("K1")))   # restore module state learnt from K1
+    # the same program must work with std and with no_std + alloc: the one public macro whose expansion is selected by rrtk's features
+    # (to_dyn!) is analysed in a downstream crate against both builds (table shared with C17.D)
+    import rules.C17 as C17
+    keyd = "E:to_dyn@std-vs-alloc"
+    chk.obligation(keyd, "to_dyn! converts the same variants in the std build and in the no_std + alloc build")
+    subd = report.Check("C17", chk.tier)
+    C17.to_dyn_expansion(subd, load_config("K1"), load_config("K2"))
+    chk.evaluations += subd.evaluations
+    for v in subd.violations:
+        if v["rule"] == "floor":
+            continue
+        chk.violation("C19.E", "C17.D:" + v["key"], "a program using to_dyn! behaves differently across feature configurations: " + v["what"], **v["detail"])
+    if not [v for v in subd.violations if v["rule"] != "floor"]:
+        chk.discharge(keyd)
     numeric_variants(chk, "K1")
     numeric_variants(chk, "K2")
     chk.configs.append("K2")
